@@ -29,9 +29,15 @@ class schema_parser
 {
 public:
     schema_parser(
-        const std::string& path, ireporter& reporter, ifs_provider& fs_provider)
-        : reporter{&reporter}, fs_provider{&fs_provider}
+        const std::string& path,
+        ireporter& reporter,
+        ifs_provider& fs_provider,
+        std::vector<std::string> including_files = {})
+        : reporter{&reporter},
+          fs_provider{&fs_provider},
+          include_chain{std::move(including_files)}
     {
+        include_chain.push_back(path);
         const auto file_data = this->fs_provider->read_file(path);
         locations = location_manager{path, file_data};
         parse_xml(file_data);
@@ -58,6 +64,8 @@ public:
 private:
     ireporter* reporter;
     ifs_provider* fs_provider;
+    // files being parsed, from the root schema down to this one
+    std::vector<std::string> include_chain;
     location_manager locations;
     pugi::xml_document xml_doc;
     sbe::message_schema message_schema;
@@ -135,7 +143,17 @@ private:
     void parse_include(const pugi::xml_node root)
     {
         const auto path = get_required_non_empty_string(root, "href");
-        auto parser = schema_parser{path, *reporter, *fs_provider};
+        if(std::find(
+               std::begin(include_chain), std::end(include_chain), path)
+           != std::end(include_chain))
+        {
+            throw_error(
+                "{}: cyclic include of `{}`",
+                locations.find(root.offset_debug()),
+                path);
+        }
+        auto parser =
+            schema_parser{path, *reporter, *fs_provider, include_chain};
         parser.parse_schema_content();
 
         const auto& schema = parser.get_message_schema();
